@@ -1,5 +1,6 @@
 """C18  Service discovery leads to the user's collections in every deployment layout."""
 import itertools
+import os
 import random
 import traceback
 import urllib.parse
@@ -197,12 +198,29 @@ def run_config(cfg, res):
         wk = Walker(w, res, cfg)
         start = w.prefix
         bare_href_tail = None
+        bare_default = None
         if cfg.get("bare_user_col"):
             # user data kept in a bare git repository below the calendar home (the layout of older versions,
             # or a `git clone --bare` into the data directory)
             try:
                 w.stop()
                 w.provision_bare(cfg["principal"].rstrip("/") + "/calendars/oldbare/", "calendar", meta="gitconfig")
+                if mode in ("defaults", "none"):
+                    # ... and the default calendar itself is such a repository (data restored from a `git clone --bare` backup
+                    # into the place where --defaults puts its calendar); it holds an event
+                    import shutil
+                    from vf import storedrv
+                    dflt = cfg["principal"].rstrip("/") + "/calendars/calendar/"
+                    dpath = os.path.join(w.root, dflt.strip("/"))
+                    if os.path.isdir(dpath):
+                        shutil.rmtree(dpath)
+                        w.provision_bare(dflt, "calendar", meta="gitconfig")
+                        st = storedrv.open_store("bare", dpath)
+                        old_body = gen.ical(rng, "c18-restored", "restoredz", rich=False)
+                        st.import_one("restored.ics", "text/calendar", [old_body])
+                        del st
+                        bare_default = ("/calendar/", "restored.ics", old_body)
+                        res.count("configs_with_a_bare_repository_as_default_calendar")
                 w.start()
                 bare_href_tail = "/oldbare/"
                 res.count("configs_with_a_bare_user_collection")
@@ -236,6 +254,13 @@ def run_config(cfg, res):
                 if t not in d["calendars"] and t not in d["addressbooks"]:
                     wk.viol(f"{wk.sigbase()}/user-created-collection-not-reachable", f"[{wk.shape()} life {life}] {t} (created by the user in an earlier life) is not reached by discovery")
             cur = wk.snapshot(d)
+            if bare_default and "calendars" in d["homes"]:
+                t = d["homes"]["calendars"].rstrip("/") + bare_default[0]
+                res.count("bare_default_calendar_checks")
+                if t not in cur:
+                    wk.viol(f"{wk.sigbase()}/bare-repository-at-default-path/not-reachable", f"[{wk.shape()} life {life}] the bare repository at the default calendar's place ({t}) is not reached as a calendar")
+                elif b"restoredz" not in (cur[t]["members"].get(t + bare_default[1]) or b""):
+                    wk.viol(f"{wk.sigbase()}/bare-repository-at-default-path/existing-event-not-served", f"[{wk.shape()} life {life}] {t}{bare_default[1]} (in the repository before the server started) is not served; members {sorted(cur[t]['members'])!r}")
             # a default collection the user deleted in an earlier life may be created afresh by
             # --defaults (it is not existing data); if it is there again it must be of its kind
             for t, key in list(deleted_defaults.items()):
@@ -355,6 +380,7 @@ def check(tier, seed, t0):
               ("restarts", c.get("restarts", 0), 20 if tier == "quick" else 250), ("collections compared across restarts", c.get("collections_compared", 0), 40 if tier == "quick" else 500),
               ("members compared across restarts", c.get("members_compared", 0), 40 if tier == "quick" else 500),
               ("configurations with user data in a bare repository below the calendar home", c.get("configs_with_a_bare_user_collection", 0), 4 if tier == "quick" else 40),
+              ("walks over a deployment whose default calendar is a bare repository with an event", c.get("bare_default_calendar_checks", 0), 3 if tier == "quick" else 30),
               ("collections deleted and re-created with another type at the same URL", c.get("collections_recreated_with_another_type", 0), 10 if tier == "quick" else 100),
               ("default collections deleted by the user and re-created by a --defaults restart", c.get("deleted_default_recreated", 0), 2 if tier == "quick" else 8)]
     return common.finish(PROP, tier, seed, "exploration", merged, failures, RULE + f"; {len(cfgs)} configurations this run", t0, guards=guards,
